@@ -1251,17 +1251,48 @@ Lemma builder_outcome ops :
   ((2 <= count_defaults ops)%nat -> build ops = Panic).
 Proof. split; [apply build_succeeds | apply build_panics]. Qed.
 
-(** the stand-in of the executable model accepts only text *)
-Lemma auth_ok_approx_text h : auth_ok_approx h = true -> is_text h.
+(** the authority parser of the [http] crate, as transcribed for C07, accepts only text *)
+Lemma auth_loop_all_uri rest : forall len i colons sb eb pct at_pos e,
+  Http1Read.auth_loop len rest i colons sb eb pct at_pos = Some e -> e = (i + length rest)%nat ->
+  forallb (fun b => Http1Read.uri_char b || (b =? 37)) rest = true.
 Proof.
-  unfold auth_ok_approx, is_text, hv_to_str. destruct h as [|c0 h0]; [discriminate|].
-  intros Hf.
+  induction rest as [|b r IH]; intros len i colons sb eb pct at_pos e H He; [reflexivity|].
+  cbn [Http1Read.auth_loop] in H. cbn [forallb length] in *.
+  destruct ((b =? 47) || (b =? 63) || (b =? 35)) eqn:Estop.
+  - exfalso. unfold Http1Read.auth_finish in H.
+    destruct (negb (Bool.eqb sb eb)); [discriminate|]. destruct (1 <? colons)%nat; [discriminate|].
+    destruct ((0 <? i)%nat && (at_pos =? i - 1)%nat); [discriminate|]. destruct pct; [discriminate|].
+    inversion H. lia.
+  - destruct (Http1Read.uri_char b) eqn:Eu; cbn [negb orb] in *.
+    + assert (Hr : forallb (fun b0 => Http1Read.uri_char b0 || (b0 =? 37)) r = true).
+      { destruct (b =? 58); [destruct (8 <=? colons)%nat; [discriminate|]; eapply IH; [exact H | lia]|].
+        destruct (b =? 91); [destruct (pct || sb); [discriminate|]; eapply IH; [exact H | lia]|].
+        destruct (b =? 93); [destruct (negb sb || eb); [discriminate|]; eapply IH; [exact H | lia]|].
+        destruct (b =? 64); eapply IH; try exact H; lia. }
+      exact Hr.
+    + destruct (b =? 37) eqn:E37; [|discriminate]. cbn [orb]. eapply IH; [exact H | lia].
+Qed.
+
+Lemma auth_ok_http_text h : auth_ok_http h = true -> is_text h.
+Proof.
+  unfold auth_ok_http, Http1Read.authority_ok, Http1Read.authority_end, is_text, hv_to_str.
+  destruct h as [|c0 h0]; [discriminate|].
+  destruct (Http1Read.auth_loop (length (c0 :: h0)) (c0 :: h0) 0 0 false false false (length (c0 :: h0))) as [e|] eqn:E; [|discriminate].
+  intros He. apply Nat.eqb_eq in He.
+  pose proof (auth_loop_all_uri _ _ _ _ _ _ _ _ _ E ltac:(cbn [Nat.add]; exact He)) as Hall.
   assert (Hv : forallb hv_visible (c0 :: h0) = true).
-  { revert Hf. generalize (c0 :: h0). intros l. induction l as [|c l IH]; [reflexivity|].
+  { revert Hall. generalize (c0 :: h0). intros l. induction l as [|c l IH]; [reflexivity|].
     cbn [forallb]. intros Hc. apply andb_prop in Hc as [Hc Hl]. rewrite (IH Hl), andb_true_r.
-    unfold dns_char, c_upper in Hc. unfold hv_visible. lia. }
+    unfold Http1Read.uri_char in Hc. unfold hv_visible. lia. }
   rewrite Hv. reflexivity.
 Qed.
+
+(** hence, for the transcribed parser, without any hypothesis about it: *)
+Lemma wire_history_spec_http ops c : build ops = Ok c ->
+  forall reqs st,
+  Forall (fun r => wf_wreq r /\ tls_refused ops r = false) reqs ->
+  wire_history auth_ok_http fixed c st reqs = map Ok (wire_spec ops st reqs).
+Proof. apply (wire_history_spec auth_ok_http auth_ok_http_text). Qed.
 
 (** ---- refutations: the code before the repairs of this round, and what remains ----------------- *)
 Definition ab_ops : list op := [ (false, cfg (B "a.test") []); (false, cfg (B "b.test") []) ].
